@@ -16,7 +16,7 @@ def gen_dsmhist(tier, seed):
     stats = {"cases": 0, "ops": {}, "kinds": {}, "via_definition": 0}
     for cid in range(ncases):
         n = r.randint(3, 6)
-        items = grid(r, r.choice(["unit", "const", "uneven"]), n)
+        items = grid(r, r.choice(["unit", "const", "uneven", "uneven", "halves"]), n)
         extra = [r.choice([1, 2, 3]) for _ in range(r.choice([0, 1, 1, 2]))]
         letters = ["t", "r", "g"][: 1 + len(extra)]
         shape = [n] + extra
@@ -24,10 +24,18 @@ def gen_dsmhist(tier, seed):
         for e in extra:
             m *= e
         cls = r.choice(list(MODELS))
-        span = max(1, items[-1] - items[0])
+        span = gen_dsm.item_span(items)
         npsets = r.randint(2, 3)
         psets = [{p: prm_spec(r, p, letters, shape, span) for p in MODELS[cls]} for _ in range(npsets)]
         npsets0 = npsets
+        if len(letters) > 1 and r.random() < 0.25:
+            # the first parameter set in whole numbers, handed over as integer arrays; fractional ones follow
+            for p_ in MODELS[cls]:
+                ls_ = [l for l in letters if l != "t"][:1]
+                n_ = shape[letters.index(ls_[0])]
+                base = {"mean": 3, "std": 1, "weibull_shape": 2, "weibull_scale": 4}[p_] * max(1, span // 8)
+                psets[0][p_] = {"kind": "array", "dims": ls_, "vals": [str(base + i) for i in range(n_)], "int": True}
+            stats["integer_first_set"] = stats.get("integer_first_set", 0) + 1
         # a parameter set that cannot be used (the table build raises): never the initial one
         if cls in BAD and r.random() < 0.4:
             bad = {p: prm_spec(r, p, letters, shape, span) for p in MODELS[cls]}
